@@ -5,12 +5,16 @@ the tables are read (the concrete part is what the Go side replays).
       → r=fail|t<idx>|c<idx> last=<idx|-> okset=<bits>      okset[i] = an index the property accepts
   ov <level> … | <n> <vkpos> <nv> <aff rows> <diff rows>
       → r=ok final=<pos> greater=<pos.pos> rounds=<k> laws=<0|1> okset=<bits>
+  mo 0 <hex json> | <levels> <counts> <pins0> <lres> <nv> <aff> <diffs>     (several packages; see handleMo)
   sg <level> … | <simple> <cur rank|-> <curId|-> <id:rank:diff:mat,…>
       → r=keep|update:<id> okset=<bits over ids> cls=-
 -/
 import Scalibr.Base.Wire
 import Scalibr.Spec.Upgrade
+import Scalibr.Model.OverrideMulti
 open Scalibr Scalibr.Wire Scalibr.Upgrade
+
+def natsDot (s : String) : Option (List Nat) := (s.splitOn ".").mapM (·.toNat?)
 
 def bitsOf (s : String) : List Bool := if s = "-" then [] else s.toList.map (· = '1')
 
@@ -100,6 +104,56 @@ def handleSg (level : Nat) (tb : List String) : String :=
     | _, _ => "bad-op"
   | _ => "bad-op"
 
+/-- mo … | <levels a.b.l> <counts na.nb.nl> <pins0 a.b.l> <lres rows> <nv> <aff v: A/B/L bits ; …> <diff A/B/L matrices>
+    packages 0 = a (direct), 1 = b (direct, nb = 0 when absent), 2 = l (transitive).
+    → r=ok pins=a.b.l res=a.b.l rounds=k okA=<bits> okB=<bits> okL=<row per (a,b): bits ;> -/
+def optNats (s : String) : Option (List (Option Nat)) :=
+  (s.splitOn ".").mapM fun x => if x = "-" || x = "x" then some none else (x.toNat?).map some
+
+def showOpts (l : List (Option Nat)) : String :=
+  ".".intercalate (l.map fun x => match x with | some v => toString v | none => "-")
+
+def handleMo (tb : List String) : String :=
+  match tb with
+  | [lv, cn, p0, lres, nv, aff, dm] =>
+    match natsDot lv, natsDot cn, optNats p0, nv.toNat?, (dm.splitOn "/").mapM parseMatrix with
+    | some [la, lb, ll], some [na, nb, nl], some pins0, some nv, some [ma, mb, ml] =>
+      let counts := [na, nb, nl]
+      let mats := [ma, mb, ml]
+      let levels := [la, lb, ll]
+      let lresRows : List (List (Option Nat)) := (listOf lres ";").map fun row => (row.splitOn ",").map fun x => x.toNat?
+      let affT : List (List (List Bool)) := (listOf aff ";").map fun v => (v.splitOn "/").map bitsOf
+      let d : Nat → Nat → Nat → Nat := fun p i j => (matGet (mats.getD p []) i j).getD dOther
+      let u : OverrideMulti.MU := ⟨3, fun p => List.range (counts.getD p 0), d, nv,
+        fun v p r => (((affT.getD v []).getD p []).getD r false), fun p => levels.getD p 0⟩
+      let lresOf : Nat → Option Nat → Option Nat := fun a b => ((lresRows.getD a []).getD (b.getD 0) none)
+      let resolve : OverrideMulti.Pins → OverrideMulti.Res := fun pins =>
+        let a := pins.getD 0 none
+        let b := pins.getD 1 none
+        let l := match a with
+          | some av => (match lresOf av b with | some base => some ((pins.getD 2 none).getD base) | none => none)
+          | none => none
+        [a, b, l]
+      let (pins, rounds) := OverrideMulti.loop u resolve (na + nb + nl + 2) pins0 0
+      let okOf : Nat → Nat → List Bool := fun p base =>
+        (List.range (counts.getD p 0)).map fun i => decide (base < i) && allows (levels.getD p 0) (d p base i) && levels.getD p 0 != lNone
+      let okA := match pins0.getD 0 none with | some a0 => okOf 0 a0 | none => []
+      let okB := match pins0.getD 1 none with | some b0 => okOf 1 b0 | none => []
+      let okL := (List.range na).map fun a => (List.range (max nb 1)).map fun b =>
+        match lresOf a (if nb = 0 then none else some b) with
+        | some base => showBits (okOf 2 base)
+        | none => "x"
+      -- known class C11/override-pin-overtaken, decided on the MODEL's own result: the pin it leaves on the transitive
+      -- package is not strictly above (within level) what the final manifest resolves to without that pin
+      let cls := match pins.getD 2 none, pins.getD 0 none with
+        | some l, some a => (match lresOf a (pins.getD 1 none) with
+          | some base => if (okOf 2 base).getD l false then "-" else "C11/override-pin-overtaken"
+          | none => "-")
+        | _, _ => "-"
+      s!"r=ok pins={showOpts pins} res={showOpts (resolve pins)} rounds={rounds} cls={cls} okA={showBits okA} okB={showBits okB} okL={";".intercalate (okL.map fun row => ",".intercalate row)}"
+    | _, _, _, _, _ => "bad-op"
+  | _ => "bad-op"
+
 def handle (line : String) : String :=
   match line.splitOn " | " with
   | [conc, tables] =>
@@ -109,7 +163,7 @@ def handle (line : String) : String :=
       | some level =>
         let tb := tables.splitOn " "
         if op = "rx" then handleRx level tb else if op = "ov" then handleOv level tb
-        else if op = "sg" then handleSg level tb else "bad-op"
+        else if op = "sg" then handleSg level tb else if op = "mo" then handleMo tb else "bad-op"
       | none => "bad-op"
     | _ => "bad-op"
   | _ => "bad-op"
